@@ -107,6 +107,37 @@ fn compare<const D: usize>(a: &SampleGenerator<D>, b: &SampleGenerator<D>, c: &C
             }
         }
     }
+    // "samples identically" is not a statement about f64 only: the first point once more with a double-double scalar
+    {
+        use crate::scalars::dd::DD;
+        use momtrop::vector::Vector;
+        let run = |s: &SampleGenerator<D>| -> Vec<u64> {
+            let x: Vec<DD> = c.p.x.iter().map(|&v| DD::f(v)).collect();
+            let ed: Vec<(Option<DD>, Vector<DD, D>)> = (0..g.nedges()).map(|e| (if g.massive[e] { Some(DD::f(c.p.kin.masses[e])) } else { None }, Vector::from_array(std::array::from_fn(|i| DD::f(c.p.kin.shifts[e][i]))))).collect();
+            let st = sut::settings(None, false, false);
+            match std::panic::catch_unwind(std::panic::AssertUnwindSafe(|| s.generate_sample_from_x_space_point(&x, ed, &st, &sut::NoLog))) {
+                Ok(Ok(r)) => {
+                    let mut b = vec![r.u.hi.to_bits(), r.u.lo.to_bits(), r.v.hi.to_bits(), r.v.lo.to_bits(), r.jacobian.hi.to_bits(), r.jacobian.lo.to_bits()];
+                    for k in &r.loop_momenta {
+                        for i in 0..D {
+                            b.push(k[i].hi.to_bits());
+                            b.push(k[i].lo.to_bits());
+                        }
+                    }
+                    b
+                }
+                Ok(Err(e)) => vec![0xE000, format!("{e:?}").len() as u64],
+                Err(_) => {
+                    let _ = engine::take_panic();
+                    vec![0xE004]
+                }
+            }
+        };
+        let (ba, bb) = (run(a), run(b));
+        if ba != bb {
+            fail!(format!("{how}:sample-differs-user-scalar"), "{how}: sampled with a double-double user scalar, the restored sampler gives different numbers than the original at the case's first point; case graph {:?}", c.p.g);
+        }
+    }
     Ok(())
 }
 
